@@ -1,7 +1,7 @@
 (* C03 -- No error is masked: a defect anywhere in the compilation set makes check fail.
    Statements only; proofs are in Proofs/CliContract.v and Proofs/AnalyzerProofs.v. *)
 From Coq Require Import List NArith Bool Permutation.
-From Verif Require Import Base.Res Model.Cli Model.Analyzer Proofs.CliContract Proofs.AnalyzerProofs.
+From Verif Require Import Base.Res Model.Cli Model.Analyzer Proofs.CliContract Proofs.AnalyzerProofs Base.Text Model.Scope Proofs.ScopeProofs.
 Import ListNotations.
 
 (* a file that fails to tokenize or parse makes the check of the whole set fail, whatever the other
@@ -36,6 +36,12 @@ Theorem C03_local_fault_not_masked :
   forall (D : Type) (key : D -> N) (diag : Type) (check : (N -> option D) -> D -> list diag) ds d,
   In d ds -> check (find_decl D key ds) d <> [] -> verdict D key diag check ds = false.
 Proof. exact local_fault_fails. Qed.
+
+(* a unit that uses an undeclared variable makes the rule fail whatever accompanies it: the verdict of a unit depends
+   on that unit alone, so no companion hides the fault and no companion declaring the name elsewhere cures it *)
+Theorem C03_undeclared_variable_never_masked : forall ps p b,
+  In p ps -> pou_bad p = Some b -> rule_symbolic (events_of ps) <> None.
+Proof. exact faulty_unit_fails. Qed.
 
 Example C03_example :
   reassemble [1; 2; 3]%N [mkDecl DkPou 3 30; mkDecl DkType 1 10; mkDecl DkPostfix 9 90; mkDecl DkType 2 20]%N
